@@ -1439,6 +1439,73 @@ def site_walks():
     return {"sha": sha, "functions": d}
 
 
+# ------------------------------------------------------------------------------------------------------------------
+# round 7: bodies that are a single `return <expr>`
+# ------------------------------------------------------------------------------------------------------------------
+P_HEADER = "import Mouette.Generated.C03S\n"
+MESH_LEN = {"vertices": "nV", "edges": "nE", "faces": "nF", "cells": "nC"}
+
+
+def pure_return(unit, ctx, fn, lean, want, prop=False):
+    """`def f(self, a..): return <expr>` -> `def f (m : Mesh) (x0 .. : Nat) : T := <expr>`"""
+    params = [a.arg for a in fn.args.args][1:]
+    if fn.args.vararg or fn.args.kwarg or fn.args.defaults: raise TranslateError(f"{fn.name}: signature")
+    if prop != ([ast.unparse(x) for x in fn.decorator_list] == ["property"]): raise TranslateError(f"{fn.name}: property decorator")
+    body = _body(fn)
+    if len(body) != 1 or not isinstance(body[0], ast.Return) or body[0].value is None:
+        raise TranslateError(f"{fn.name}: body is not a single `return <expr>`")
+    v = body[0].value
+    f = Fn(unit, ctx, fn, lean)
+    env = {pn: (f.fresh(), "nat") for pn in params}
+    # range(len(self.<container>))
+    if isinstance(v, ast.Call) and isinstance(v.func, ast.Name) and v.func.id == "range" and len(v.args) == 1 and isinstance(v.args[0], ast.Call) \
+            and isinstance(v.args[0].func, ast.Name) and v.args[0].func.id == "len" and len(v.args[0].args) == 1 \
+            and isinstance(v.args[0].args[0], ast.Attribute):
+        r = resolve(ctx, v.args[0].args[0])
+        if r and r[0] == "mesh" and r[1] in MESH_LEN: e, t = f"List.range m.{MESH_LEN[r[1]]}", "list"
+        else: raise TranslateError(f"{fn.name}: range(len(..)) of {ast.unparse(v.args[0].args[0])}")
+    # np.all([self.g(i) for i in self.id_X])
+    elif isinstance(v, ast.Call) and ast.unparse(v.func) in ("np.all", "all") and len(v.args) == 1 and isinstance(v.args[0], (ast.ListComp, ast.GeneratorExp)) \
+            and len(v.args[0].generators) == 1 and not v.args[0].generators[0].ifs and isinstance(v.args[0].generators[0].target, ast.Name):
+        g = v.args[0].generators[0]
+        L, tL = f.cx_atom(g.iter, env)
+        x = f.fresh()
+        b, tb = f.cx_atom(v.args[0].elt, dict(env, **{g.target.id: (x, "nat")}))
+        if tL != "list" or tb != "bool": raise TranslateError(f"{fn.name}: all(..) types {tL},{tb}")
+        e, t = f"{L}.all (fun {x} => {b})", "bool"
+    else:
+        e, t = f.cx(v, env)
+        t = t.rstrip("*")
+    if t != want: raise TranslateError(f"{fn.name}: returns a {t}, expected {want}")
+    ps = ("(" + " ".join(env[pn][0] for pn in params) + " : Nat) ") if params else ""
+    ty = {"list": "List Nat", "nat": "Nat", "bool": "Bool"}[t]
+    unit.text.append(f"/-- `{fn.name}`: `return {ast.unparse(v)}` -/\ndef {lean} (m : Mesh) {ps}: {ty} :=\n  {e}\n")
+    level = "conn" if ctx == "conn" else "mesh"
+    unit.funcs[(level, fn.name)] = {"lean": lean, "ret": t, "params": len(params)}
+    return {"returns": ast.unparse(v)}
+
+
+def site_small():
+    tree, _ = T.load(VOL)
+    u = Unit()
+    u.funcs[("conn", "face_to_cells")] = {"lean": "C03S.face_to_cells", "ret": "list", "params": 1}
+    C = "VolumeMesh._Connectivity."
+    d = {}
+    d["cell_to_vertex"] = pure_return(u, "conn", _get(tree, C + "cell_to_vertex"), "cell_to_vertex", "list")
+    d["n_F2C"] = pure_return(u, "conn", _get(tree, C + "n_F2C"), "n_F2C", "nat")
+    for p_, cont in (("id_vertices", "nV"), ("id_edges", "nE"), ("id_faces", "nF"), ("id_cells", "nC")):
+        d[p_] = pure_return(u, "mesh", _get(tree, "VolumeMesh." + p_), p_, "list", prop=True)
+    d["is_cell_tet"] = pure_return(u, "mesh", _get(tree, "VolumeMesh.is_cell_tet"), "is_cell_tet", "bool")
+    d["is_tetrahedral"] = pure_return(u, "mesh", _get(tree, "VolumeMesh.is_tetrahedral"), "is_tetrahedral", "bool")
+    out = "namespace Mouette.Generated.C03P\nopen Mouette.Vol Mouette.VolS Mouette.Generated\n\n" + "\n".join(u.text) + "\nend Mouette.Generated.C03P\n"
+    _, sha = T.write_generated("C03P", out, header=P_HEADER)
+    return {"sha": sha, "functions": d}
+
+
+TRANSLATED_R7 = ["VolumeMesh._Connectivity.cell_to_vertex", "VolumeMesh._Connectivity.n_F2C", "VolumeMesh.id_vertices", "VolumeMesh.id_edges",
+                 "VolumeMesh.id_faces", "VolumeMesh.id_cells", "VolumeMesh.is_cell_tet", "VolumeMesh.is_tetrahedral"]
+
+
 def _stub(name, ns, header, why):
     """a site that raises must not leave the definitions of an EARLIER tree on disk: the stub makes the bridges fail to build"""
     T.write_generated(name, f"namespace {ns}\n-- SITE NOT RECOGNISED in the current tree: {why[:300]!r}\nend {ns}\n", header=header)
@@ -1461,4 +1528,6 @@ def run():
     w = T.site("volume.py: whole bodies of other_face_side and _sort_edge_neighborhoods (guard, loop over the edges, the two `while True` "
                "walks with their break, the resets between them, the two sort(key=..) calls)", site_walks)
     if not w["ok"]: _stub("C03W", "Mouette.Generated.C03W", W_HEADER, str(w["detail"]))
-    return [s, b, w]
+    q = T.site("volume.py: single-return bodies cell_to_vertex, n_F2C, id_vertices/id_edges/id_faces/id_cells, is_cell_tet, is_tetrahedral", site_small)
+    if not q["ok"]: _stub("C03P", "Mouette.Generated.C03P", P_HEADER, str(q["detail"]))
+    return [s, b, w, q]
